@@ -312,6 +312,50 @@ func c01R3(c *Ctx) {
 			}
 			c.check(notFixed, side.fn+"/COMP@undecided", c.ipos(ci), "COMP is exchanged only when the decision is not fixed", "COMP is exchanged although the decision is fixed (the peer does not expect it)")
 		}
+		// universal forms: nothing succeeds before the shared decision was asked; every success on the fixed edge returns the
+		// shared answer; every success on the other edge has exchanged COMP
+		{
+			hit0, path0 := reachFrom(f.Blocks[0], 0, c.maySucceed, func(in ssa.Instruction) bool { return in == ssa.Instruction(call) })
+			c.check(hit0 == nil, side.fn+"/decides-first", c.pos(f.Pos()), "no successful exit precedes the shared decision", "the role can answer without asking the shared decision function (a private shortcut: the two codec stacks disagree)", c.pathStr(path0)...)
+			onFixed := func(pol bool) func(from, to *ssa.BasicBlock) bool {
+				return func(from, to *ssa.BasicBlock) bool {
+					for _, fc := range edgeFactsTo(from, to) {
+						if fixed != nil && fc.V == fixed && fc.Pol == pol {
+							return true
+						}
+					}
+					return false
+				}
+			}
+			eachInstr(f, func(in ssa.Instruction) {
+				r, ok := in.(*ssa.Return)
+				if !ok || !c.maySucceed(in) || !domI(call, in) {
+					return
+				}
+				// reachable without crossing the not-fixed edge => must return the shared answer
+				viaFixed, _ := reachFromE(call.Block(), instrIndex(call)+1, func(x ssa.Instruction) bool { return x == in }, nil, onFixed(false))
+				if viaFixed != nil {
+					isNot := false
+					for _, fc := range factsAt(in.Block()) {
+						if fixed != nil && fc.V == fixed && !fc.Pol {
+							isNot = true
+						}
+					}
+					if !isNot {
+						c.check(comp != nil && sameValue(retVal(r, 0), comp), side.fn+"/every-fixed-exit-shared-answer", c.ipos(in), "a success on the fixed edge returns the shared answer", "a success on the fixed edge returns something other than the shared answer")
+					}
+				}
+			})
+			hitC, pathC := reachFromE(call.Block(), instrIndex(call)+1, c.maySucceed, func(in ssa.Instruction) bool {
+				ci, ok := in.(*ssa.Call)
+				if !ok || calleeID(&ci.Call) != side.comp {
+					return false
+				}
+				k, _ := constString(ci.Call.Args[1])
+				return k == "COMP"
+			}, onFixed(true))
+			c.check(hitC == nil, side.fn+"/undecided=>COMP-exchanged", c.ipos(call), "when the decision is not fixed every success has exchanged COMP", "with the decision not fixed the role can succeed without the COMP exchange (the peer waits for / never sends the line)", c.pathStr(pathC)...)
+		}
 		c.check(len(callsWithConstArg(f, side.comp, 1, "COMP")) == 1, side.fn+"/COMP-once", c.pos(f.Pos()), "exactly one COMP exchange", "COMP exchange missing or duplicated")
 	}
 	// what the sender announces is what it uses
@@ -456,6 +500,40 @@ func c01R4(c *Ctx) {
 						skip = true
 					}
 				}
+			}
+		}
+		// universal form of the order: from each step's call, the next file's name step (or a successful return) is not
+		// reachable without the following step — except, after the name step, over the edge where the entry has no content
+		noContent := func(from, to *ssa.BasicBlock) bool {
+			for _, fc := range edgeFactsTo(from, to) {
+				op, x, y, ok := cmpFact(fc)
+				if !ok || op != token.EQL || !isNilConst(y) {
+					continue
+				}
+				for _, l := range origins(x, originOpts{}) {
+					if call, idx := callOf(l.V); call != nil && idx == 0 && idIs(side.roles[0].ids...)(calleeID(&call.Call)) {
+						return true
+					}
+				}
+			}
+			return false
+		}
+		isRole := func(r role) func(ssa.Instruction) bool {
+			return func(in ssa.Instruction) bool {
+				ci, ok := in.(ssa.CallInstruction)
+				return ok && idIs(r.ids...)(calleeID(ci.Common()))
+			}
+		}
+		for i := 0; i+1 < len(side.roles); i++ {
+			for _, a := range callsIn(side.f, idIs(side.roles[i].ids...)) {
+				var eb func(from, to *ssa.BasicBlock) bool
+				if i == 0 {
+					eb = noContent
+				}
+				hitO, pathO := reachFromE(a.Block(), instrIndex(a.(ssa.Instruction))+1, func(in ssa.Instruction) bool {
+					return isNilErrReturn(in) || isRole(side.roles[0])(in)
+				}, isRole(side.roles[i+1]), eb)
+				c.check(hitO == nil, fname+"/"+side.roles[i].name+"=>"+side.roles[i+1].name, c.ipos(a), "after '"+side.roles[i].name+"' the loop cannot go on to the next file (or succeed) without '"+side.roles[i+1].name+"'", "after the '"+side.roles[i].name+"' step the loop can go on to the next file or succeed without the '"+side.roles[i+1].name+"' step: the peer still waits for it", c.pathStr(pathO)...)
 			}
 		}
 		c.check(skip, fname+"/nil-file-skips", c.pos(side.f.Pos()), "an entry without file content skips the data exchange", "entries without file content are no longer skipped on this side")
@@ -1198,6 +1276,27 @@ func c01R13(c *Ctx) {
 				nEmpty++
 			}
 		}
+	}
+	{
+		// universal form: no successful exit of Close without the end marker having been delivered
+		isEnd := func(in ssa.Instruction) bool {
+			ci, ok := in.(ssa.CallInstruction)
+			if !ok || calleeID(ci.Common()) != "(*trzsz.sendDataWriter).deliver" {
+				return false
+			}
+			arg := ci.Common().Args[1]
+			if els, ok := sliceElems(arg); ok && len(els) == 0 {
+				return true
+			}
+			if sl, isS := strip(arg).(*ssa.Slice); isS {
+				if al, isAl := sl.X.(*ssa.Alloc); isAl && arrayLen(al) == 0 {
+					return true
+				}
+			}
+			return false
+		}
+		hitE, pathE := reachFrom(wc.Blocks[0], 0, isNilErrReturn, isEnd)
+		c.check(hitE == nil, "sendDataWriter.Close/always-end-marker", c.pos(wc.Pos()), "Close succeeds only after delivering the end-of-data marker", "Close can succeed without delivering the end-of-data marker: the sending stage never learns that the file is complete and both ends wait", c.pathStr(pathE)...)
 	}
 	c.check(nEmpty == 1 && nData == 1, "sendDataWriter.Close/one-end-marker", c.pos(wc.Pos()), "closing a file's writer delivers the rest of the buffer and then exactly one empty chunk", fmt.Sprintf("closing a file's writer delivers %d data chunk(s) and %d empty chunk(s); expected 1 and 1", nData, nEmpty))
 	// the binary receiver reads a payload exactly when the announced chunk size is not zero
